@@ -55,6 +55,16 @@ def is_request_call(e, reqs):
     return bool(c) and len(c) >= 3 and c[-2] == '_sock' and c[-1] in reqs
 
 
+POLICER_ALIASES = set()   # local names bound to X._policer in the function under check
+
+
+def is_policer_ref(e):
+    c = attr_chain(e)
+    if not c:
+        return False
+    return c[-1] == '_policer' or (len(c) == 1 and c[0] in POLICER_ALIASES)
+
+
 def guard_kind(st):
     """Recognise G; returns True if `st` is the policer guard (conditional or not)."""
     def is_wait(x):
@@ -64,13 +74,15 @@ def guard_kind(st):
             x = x.value
         if not isinstance(x, ast.Call) or x.args or x.keywords:
             return False
-        c = attr_chain(x.func)
-        return bool(c) and len(c) >= 3 and c[-2] == '_policer' and c[-1] in ('wait', 'wait_sync')
+        f = x.func
+        return isinstance(f, ast.Attribute) and f.attr in ('wait', 'wait_sync') and is_policer_ref(f.value)
     if is_wait(st):
         return True
     if isinstance(st, ast.If) and not st.orelse and len(st.body) == 1 and is_wait(st.body[0]):
-        c = attr_chain(st.test)
-        return bool(c) and c[-1] == '_policer'
+        t = st.test
+        if isinstance(t, ast.Compare) and len(t.ops) == 1 and isinstance(t.ops[0], ast.IsNot) and isinstance(t.comparators[0], ast.Constant) and t.comparators[0].value is None:
+            t = t.left   # `if p is not None:` guards the same call
+        return is_policer_ref(t)
     return False
 
 
@@ -266,6 +278,12 @@ class Checker:
         self.fn = "%s.%s" % (cls, fn.name)
         self.count = 0
         self.nested = {}
+        POLICER_ALIASES.clear()
+        for st in ast.walk(fn):
+            if isinstance(st, ast.Assign) and len(st.targets) == 1 and isinstance(st.targets[0], ast.Name):
+                c = attr_chain(st.value)
+                if c and c[-1] == '_policer':
+                    POLICER_ALIASES.add(st.targets[0].id)
         for st in ast.walk(fn):
             if st is not fn and isinstance(st, (ast.FunctionDef, ast.AsyncFunctionDef)):
                 self.nested[st.name] = st
@@ -361,6 +379,11 @@ def main():
                     if k.arg == 'policer':
                         arg = k.value
                 ok = arg is not None and attr_chain(arg) == ['self', '_policer']
+                if not ok and isinstance(arg, ast.Name):
+                    # a local bound once to self._policer
+                    mm = find(sync_client, 'SnmpSession', meth)
+                    binds = [n for n in ast.walk(mm) if isinstance(n, ast.Assign) and any(isinstance(t, ast.Name) and t.id == arg.id for t in n.targets)]
+                    ok = len(binds) == 1 and attr_chain(binds[0].value) == ['self', '_policer']
                 ob("sync:W_%s_hands_the_policer_to_%s" % (meth, itname), "sync_client/client.py :: SnmpSession.%s" % meth, ok,
                    "sync_client/client.py:%d" % c.lineno, "%s(...) at line %d is not given self._policer as its policer" % (itname, c.lineno))
         # ---- L: a Future awaited inside a loop is created in that loop iteration (C01: the call returns; an already-done Future
@@ -505,7 +528,22 @@ def main():
                             own.append(c)
                         walk(c)
                 walk(m)
-                ok = len(own) >= 1 and all(r.value is not None and is_sock_call(r.value, names) for r in own)
+                def passes(r):
+                    if r.value is None:
+                        return False
+                    if is_sock_call(r.value, names):
+                        return True
+                    if isinstance(r.value, ast.Name):
+                        nm = r.value.id
+                        binds = [n for n in ast.walk(m) if isinstance(n, (ast.Assign, ast.AnnAssign, ast.AugAssign)) and
+                                 any(isinstance(t, ast.Name) and t.id == nm for t in (n.targets if isinstance(n, ast.Assign) else [n.target]))]
+                        uses = [n for n in ast.walk(m) if isinstance(n, (ast.Subscript, ast.Attribute)) and isinstance(n.value, ast.Name) and n.value.id == nm
+                                and isinstance(getattr(n, 'ctx', None), (ast.Store, ast.Del))]
+                        calls = [n for n in ast.walk(m) if isinstance(n, ast.Call) and isinstance(n.func, ast.Attribute) and isinstance(n.func.value, ast.Name)
+                                 and n.func.value.id == nm]
+                        return len(binds) == 1 and isinstance(binds[0], ast.Assign) and is_sock_call(binds[0].value, names) and not uses and not calls
+                    return False
+                ok = len(own) >= 1 and all(passes(r) for r in own)
                 ob("%s:P_%s_returns_the_socket_result_unchanged" % (kind, meth), "%s :: SnmpSession.%s" % (f, meth), ok, "%s:%d" % (f, m.lineno),
                    "SnmpSession.%s does not return the result of the socket call as it is" % meth)
         for f in ('sync_client/client.py', 'async_client/client.py'):
